@@ -2,6 +2,7 @@ package props
 
 import (
 	"fmt"
+	"go.pennock.tech/tabular/length"
 
 	"go.pennock.tech/tabular"
 	"go.pennock.tech/tabular/csv"
@@ -15,12 +16,12 @@ import (
 const c05Fam = gen.FAscii | gen.FCSV | gen.FNewline | gen.FCR | gen.FInvalid | gen.FWide | gen.FNUL | gen.FHTML | gen.FEdge
 
 func c05Table(r *gen.R) gen.TableSpec {
-	return r.Table(gen.TableOpts{MaxCols: 5, MaxRows: 6, ZeroHeaderOK: true, MinCols: 0, Noise: gen.NoiseSkipable | gen.NoiseAlign | gen.NoiseCallbacks,
+	return r.Table(gen.TableOpts{MaxCols: 5, MaxRows: 6, ZeroHeaderOK: true, MinCols: 0, Noise: gen.NoiseSkipable | gen.NoiseAlign | gen.NoiseCallbacks | gen.NoiseFailingCallbacks,
 		Item: func(r *gen.R) gen.ItemSpec {
 			if r.Chance(1, 25) {
 				return r.AnyItem(c05Fam, 5, 1)
 			}
-			return r.TextItem(c05Fam, 6)
+			return r.TextItemSized(c05Fam, 6, length.StringCells)
 		}})
 }
 
